@@ -177,7 +177,7 @@ func (e *Exec) intrinsic(st *State, fn *ssa.Function, args []Value, callSite ssa
 			return ret(st, c.Not(args[0].(*Term))), true
 		case "vfImplies":
 			return ret(st, c.Implies(args[0].(*Term), args[1].(*Term))), true
-		case "vfIteInt", "vfIteU32", "vfIteBool":
+		case "vfIteInt", "vfIteU32", "vfIteBool", "vfIteF32":
 			return ret(st, c.Ite(args[0].(*Term), args[1].(*Term), args[2].(*Term))), true
 		case "vfThorough":
 			return ret(st, c.Bool(e.cfg.Thorough)), true
@@ -198,6 +198,43 @@ func (e *Exec) intrinsic(st *State, fn *ssa.Function, args []Value, callSite ssa
 		return nil, false
 	}
 	full := fn.String()
+	if strings.HasPrefix(full, "sync/atomic.") && fn.Signature.Recv() == nil {
+		op := strings.TrimPrefix(full, "sync/atomic.")
+		var p *PtrV
+		if len(args) > 0 {
+			p, _ = args[0].(*PtrV)
+		}
+		if p != nil && !isNilPtr(p) {
+			switch {
+			case strings.HasPrefix(op, "Load"):
+				return ret(st, e.load(st, p)), true
+			case strings.HasPrefix(op, "Store"):
+				e.store(st, p, args[1])
+				return ret(st, nil), true
+			case strings.HasPrefix(op, "Add"):
+				nv := c.BvBin(OpAdd, e.load(st, p).(*Term), args[1].(*Term))
+				e.store(st, p, nv)
+				return ret(st, nv), true
+			case strings.HasPrefix(op, "Swap"):
+				old := e.load(st, p)
+				e.store(st, p, args[1])
+				return ret(st, old), true
+			case strings.HasPrefix(op, "CompareAndSwap"):
+				cur := e.load(st, p)
+				eq := e.valueEq(cur, args[1])
+				if eq.IsTrue() {
+					e.store(st, p, args[2])
+				} else if !eq.IsFalse() {
+					nv, ok := e.mergeValue(eq, args[2], cur, 0)
+					if !ok {
+						panic(unsupported("atomic CAS on non-mergeable value"))
+					}
+					e.store(st, p, nv)
+				}
+				return ret(st, eq), true
+			}
+		}
+	}
 	switch full {
 	case "fmt.Errorf", "fmt.Sprintf", "fmt.Sprint", "fmt.Sprintln":
 		if full == "fmt.Errorf" {
@@ -208,6 +245,18 @@ func (e *Exec) intrinsic(st *State, fn *ssa.Function, args []Value, callSite ssa
 		return ret(st, e.zeroResults(fn)), true
 	case "log.Println", "log.Printf", "log.Print", "(*log.Logger).Printf", "(*log.Logger).Println", "(*log.Logger).Print":
 		return ret(st, nil), true
+	case "internal/abi.NoEscape", "strings.noescape", "internal/abi.Escape":
+		return ret(st, args[0]), true
+	case "internal/bytealg.MakeNoZero":
+		n := int(e.argInt(args[0]))
+		at := types.NewArray(types.Typ[types.Uint8], int64(n))
+		o := e.newObject(at, "bytes")
+		st.heap[o] = copyAgg(e.zero(at), st.epoch)
+		nn := c.BVConst(uint64(n), 64)
+		return ret(st, &SliceV{Base: &PtrV{Obj: o}, Off: c.BVConst(0, 64), Len: nn, Cap: nn}), true
+	case "(*strings.Builder).String":
+		bv := e.load(st, args[0].(*PtrV)).(*StructV)
+		return ret(st, e.bytesToStr(st, bv.F[1].(*SliceV))), true
 	case "math.Float32bits":
 		return ret(st, c.FToBits(args[0].(*Term))), true
 	case "math.Float64bits":
@@ -226,6 +275,46 @@ func (e *Exec) intrinsic(st *State, fn *ssa.Function, args []Value, callSite ssa
 		return e.sortSlice(st, args, callSite), true
 	case "internal/bytealg.IndexByte", "internal/bytealg.IndexByteString":
 		return ret(st, e.indexByte(st, args[0], args[1].(*Term))), true
+	case "internal/bytealg.Count", "internal/bytealg.CountString":
+		s := e.asStr(st, args[0])
+		n := len(s.B)
+		if s.Len.IsConst() {
+			n = int(s.Len.val)
+		}
+		r := c.BVConst(0, 64)
+		for i := 0; i < n; i++ {
+			it := c.BVConst(uint64(i), 64)
+			hit := c.And(c.BvBin(OpUlt, it, s.Len), c.Eq(e.strByte(s, it), args[1].(*Term)))
+			r = c.BvBin(OpAdd, r, c.Ite(hit, c.BVConst(1, 64), c.BVConst(0, 64)))
+		}
+		return ret(st, r), true
+	case "internal/bytealg.Compare":
+		a, bb := e.asStr(st, args[0]), e.asStr(st, args[1])
+		m1 := c.BVConst(^uint64(0), 64)
+		return ret(st, c.Ite(e.strLess(a, bb), m1, c.Ite(e.strEq(a, bb), c.BVConst(0, 64), c.BVConst(1, 64)))), true
+	case "internal/bytealg.Index", "internal/bytealg.IndexString", "strings.Index", "bytes.Index":
+		a, aok := concreteStr(e.asStr(st, args[0]))
+		bb, bok := concreteStr(e.asStr(st, args[1]))
+		if !aok || !bok {
+			if full == "strings.Index" || full == "bytes.Index" {
+				return nil, false // run the real code
+			}
+			panic(unsupported(full + " on symbolic operands"))
+		}
+		return ret(st, c.BVConst(uint64(int64(strings.Index(a, bb))), 64)), true
+	case "internal/bytealg.LastIndexByte", "internal/bytealg.LastIndexByteString":
+		s := e.asStr(st, args[0])
+		n := len(s.B)
+		if s.Len.IsConst() {
+			n = int(s.Len.val)
+		}
+		r := c.BVConst(^uint64(0), 64)
+		for i := 0; i < n; i++ {
+			it := c.BVConst(uint64(i), 64)
+			hit := c.And(c.BvBin(OpUlt, it, s.Len), c.Eq(e.strByte(s, it), args[1].(*Term)))
+			r = c.Ite(hit, it, r)
+		}
+		return ret(st, r), true
 	case "internal/bytealg.Equal":
 		a, b := e.bytesToStr(st, args[0].(*SliceV)), e.bytesToStr(st, args[1].(*SliceV))
 		return ret(st, e.strEq(a, b)), true
@@ -889,4 +978,14 @@ func (e *Exec) lookupFork(st *State, fr *Frame, x *ssa.Lookup) ([]contAlt, bool)
 		set(cur, curFr, e.zero(mt.Elem()), false)
 	}
 	return alts, true
+}
+
+func (e *Exec) asStr(st *State, v Value) *StrV {
+	switch x := v.(type) {
+	case *StrV:
+		return x
+	case *SliceV:
+		return e.bytesToStr(st, x)
+	}
+	panic(unsupported(fmt.Sprintf("string-like operand %T", v)))
 }
